@@ -6985,12 +6985,13 @@ def subn(
                         else:  # need to do extra stuff to mark possibly multiple replacements as dirty
                             body = getattr(parent, virt_field)
                             len_body = len(body)
+                            repl_slot_new_a = repl_slot_new.a
 
                             parent._put_slice(repl_slot_new, virt_idx, virt_idx + 1, virt_field, one, repl_options_)
 
                             if len(body) == len_body:  # only mark dirty if replaced exactly one element because otherwise it was a deletion or subslice
-                                if f := body[virt_idx]:
-                                    dirty.add(f.a)
+                                if (f := body[virt_idx]) and f.a is repl_slot_new_a:  # a slice of one element is that element, not the matched node
+                                    dirty.add(repl_slot_new_a)
 
                         continue
 
@@ -6999,10 +7000,12 @@ def subn(
                     elif not one and (pfield := repl_slot.pfield) and pfield.idx is None:  # maybe need to turn off slice put if the field we are putting to is not a list field
                         one = True
 
+                repl_slot_new_a = repl_slot_new.a if repl_slot_new_is_matched_root else None
                 repl_slot_new = repl_slot.replace(repl_slot_new, one=one, **repl_options_)
 
                 if repl_slot_new_is_matched_root:  # replaced with whole matched node, mark top node as dirty otherwise would cause infinite recursion, we know repl_slot_new exists because repl_slot_new_is_matched_root means it was a node going in
-                    dirty.add(repl_slot_new.a)
+                    if repl_slot_new and repl_slot_new.a is repl_slot_new_a:  # if it was spliced as a slice then the matched node itself is gone and what came back is its first element, which is not exempt from substitution
+                        dirty.add(repl_slot_new_a)
 
             one = True
 
